@@ -871,9 +871,7 @@ fn attr_values() -> Vec<Attribute> {
     v
 }
 
-fn encode_msgs(spec: &CodecSpec, msgs: &[Message]) -> Option<Vec<u8>> {
-    // the *peer's* codec: same capability sets, so tx(add-path) of the peer == rx of ours
-    let mut enc = spec.build();
+fn encode_msgs(enc: &mut PeerCodec, msgs: &[Message]) -> Option<Vec<u8>> {
     let mut buf = BytesMut::with_capacity(4096);
     for m in msgs {
         if enc.encode_to(m, &mut buf).is_err() {
@@ -885,34 +883,48 @@ fn encode_msgs(spec: &CodecSpec, msgs: &[Message]) -> Option<Vec<u8>> {
 
 pub fn encoder_bgp_seeds(specs: &[CodecSpec], out: &mut Vec<Seed>) {
     let attrs = Arc::new(attr_values());
+    // (home codec, family) pairs; the *peer's* codec has the same capability sets, so its
+    // add-path tx equals our rx: one codec object per home serves as the encoder
+    let mut plan: Vec<(usize, Family)> = Vec::new();
     for f in families() {
-        let vals = nlri_values(f);
-        let mut homes = vec![home_for(specs, f, false), home_for(specs, f, true), idx(specs, "all-as2"), idx(specs, "all-ap-as2-extmsg")];
-        if f == Family::IPV4 {
-            homes.push(idx(specs, "v4v6-extnh"));
-            homes.push(idx(specs, "v4-ap-as2"));
+        plan.push((home_for(specs, f, false), f));
+        plan.push((home_for(specs, f, true), f));
+        if !cfg!(miri) {
+            plan.push((idx(specs, "all-as2"), f));
+            plan.push((idx(specs, "all-ap-as2-extmsg"), f));
         }
-        for h in homes {
-            let sp = &specs[h];
-            if !sp.has(f) {
-                continue;
-            }
-            let entries: Vec<PathNlri> = vals.iter().enumerate().map(|(i, n)| PathNlri { path_id: i as u32 + 1, nlri: n.clone() }).collect();
-            let reach = Message::Update(Update::Reach { family: f, entries: entries.clone(), nexthop: nexthop_value(f), attr: attrs.clone() });
-            let unreach = Message::Update(Update::Unreach { family: f, entries });
-            let eor = Message::eor(f);
-            for (kind, m) in [("update-reach", reach), ("update-unreach", unreach), ("eor", eor)] {
-                if let Some(b) = encode_msgs(sp, std::slice::from_ref(&m)) {
-                    out.push(Seed {
-                        name: format!("enc/{}/{}/{}", kind, fam_name(f), sp.name),
-                        proto: Proto::Bgp,
-                        bytes: b,
-                        family: Some(f),
-                        home: h,
-                        from_encoder: true,
-                        kind,
-                    });
-                }
+        if f == Family::IPV4 {
+            plan.push((idx(specs, "v4v6-extnh"), f));
+            plan.push((idx(specs, "v4-ap-as2"), f));
+        }
+    }
+    plan.sort_by_key(|(h, _)| *h);
+    let mut cur: Option<(usize, PeerCodec)> = None;
+    for (h, f) in plan {
+        let sp = &specs[h];
+        if !sp.has(f) {
+            continue;
+        }
+        if cur.as_ref().map(|c| c.0) != Some(h) {
+            cur = Some((h, sp.build()));
+        }
+        let enc = &mut cur.as_mut().unwrap().1;
+        let vals = nlri_values(f);
+        let entries: Vec<PathNlri> = vals.iter().enumerate().map(|(i, n)| PathNlri { path_id: i as u32 + 1, nlri: n.clone() }).collect();
+        let reach = Message::Update(Update::Reach { family: f, entries: entries.clone(), nexthop: nexthop_value(f), attr: attrs.clone() });
+        let unreach = Message::Update(Update::Unreach { family: f, entries });
+        let eor = Message::eor(f);
+        for (kind, m) in [("update-reach", reach), ("update-unreach", unreach), ("eor", eor)] {
+            if let Some(b) = encode_msgs(enc, std::slice::from_ref(&m)) {
+                out.push(Seed {
+                    name: format!("enc/{}/{}/{}", kind, fam_name(f), sp.name),
+                    proto: Proto::Bgp,
+                    bytes: b,
+                    family: Some(f),
+                    home: h,
+                    from_encoder: true,
+                    kind,
+                });
             }
         }
     }
@@ -944,8 +956,9 @@ pub fn encoder_bgp_seeds(specs: &[CodecSpec], out: &mut Vec<Seed>) {
         ("keepalive", Message::Keepalive),
         ("route-refresh", Message::RouteRefresh { family: Family::IPV6 }),
     ];
+    let mut enc_all = sp.build();
     for (i, (kind, m)) in others.iter().enumerate() {
-        if let Some(b) = encode_msgs(sp, std::slice::from_ref(m)) {
+        if let Some(b) = encode_msgs(&mut enc_all, std::slice::from_ref(m)) {
             out.push(Seed { name: format!("enc/{}/{}", kind, i), proto: Proto::Bgp, bytes: b, family: None, home: all, from_encoder: true, kind });
         }
     }
@@ -955,7 +968,8 @@ pub fn encoder_bgp_seeds(specs: &[CodecSpec], out: &mut Vec<Seed>) {
         .collect();
     let m = Message::Update(Update::Reach { family: Family::IPV4, entries: many, nexthop: nexthop_value(Family::IPV4), attr: Arc::new(attr_values()) });
     let h = idx(specs, "v4");
-    if let Some(b) = encode_msgs(&specs[h], std::slice::from_ref(&m)) {
+    let mut enc_v4 = specs[h].build();
+    if let Some(b) = encode_msgs(&mut enc_v4, std::slice::from_ref(&m)) {
         out.push(Seed { name: "enc/update-reach/ipv4/split-1500".into(), proto: Proto::Bgp, bytes: b, family: Some(Family::IPV4), home: h, from_encoder: true, kind: "update-stream" });
     }
 }
